@@ -190,3 +190,14 @@ A(V("c13-wrong-index", "C13", CQ, "cubic_approx_spline(curves[i], n, max_errors[
 A(V("c13-reject-weakened", "C13", CQ, "        if abs(d1) > tolerance or not cubic_farthest_fit_inside(", "        if abs(d1) > tolerance and not cubic_farthest_fit_inside(", "F25"))
 A(V("c13-qu2cu-gate", "C13", "qu2cu/qu2cu.py", "                if not cubic_farthest_fit_inside(p0, p1, p2, p3, tolerance):\n                    error = tolerance + 1\n                    break\n            if error > tolerance:\n                # Not feasible\n                continue", "                if not cubic_farthest_fit_inside(p0, p1, p2, p3, tolerance):\n                    error = tolerance + 1\n                    break", "F25"))
 A(V("c13-benign-rename", "C13", CQ, "    curve = [complex(*p) for p in curve]\n\n    for n in range(1, MAX_N + 1):\n        spline = cubic_approx_spline(curve, n, max_err, all_quadratic)", "    pts = [complex(*p) for p in curve]\n    curve = pts\n\n    for n in range(1, MAX_N + 1):\n        spline = cubic_approx_spline(curve, n, max_err, all_quadratic)", None, expect=0))
+
+# ---- C12 -------------------------------------------------------------------
+SPZ = "cffLib/specializer.py"
+A(V("c12-handler-lost", "C12", PS, "    def op_hflex1(self, index):", "    def _op_hflex1(self, index):", "F9-cff"))
+A(V("c12-maxstack-default", "C12", SPZ, "    maxstack=48,", "    maxstack=49,", "F24"))
+A(V("c12-merge-unguarded", "C12", SPZ, "        if new_op and combinedStackUse < maxstack:", "        if new_op:", "F24"))
+A(V("c12-topology-del", "C12", SPZ, "    # Some other redundancies change topology (point numbers).\n    if not preserveTopology:\n", "    # Some other redundancies change topology (point numbers).\n    if True:\n", "TOPO"))
+A(V("c12-hv-merge-weak", "C12", SPZ, '        elif {op1, op2} == {"vlineto", "hlineto"}:', '        elif {op1, op2} <= {"vlineto", "hlineto"}:', "TOPO"))
+A(V("c12-stackuse-before-push", "C12", PS, "            self.operandStack.append(value)\n            maxStackUse = max(maxStackUse, len(self.operandStack))", "            maxStackUse = max(maxStackUse, len(self.operandStack))\n            self.operandStack.append(value)", "F24"))
+A(V("c12-subrs-left", "C12", "cffLib/transforms.py", "            for fd in font.FDArray:\n                pd = fd.Private\n                if hasattr(pd, \"Subrs\"):\n                    del pd.Subrs\n", "            for fd in font.FDArray[:1]:\n                pd = fd.Private\n                if hasattr(pd, \"Subrs\"):\n                    del pd.Subrs\n", "CFF-xf"))
+A(V("c12-flex-width", "C12", PS, "        dx1, dy1, dx2, dy2, dx3, dx4, dx5, dy5, dx6 = self.popall()", "        dx1, dy1, dx2, dy2, dx3, dx4, dx5, dx6 = self.popall()", "CFF-arity"))
